@@ -446,6 +446,10 @@ impl PayProof {
             .with(&old_pay_token_proof_builder)
             .with(&customer_range_constraint_builder)
             .with(&merchant_range_constraint_builder)
+            // integrate the commitment scalars that are revealed for the public values
+            // (old nonce, close tag): they must be fixed before the challenge
+            .with(&old_pay_token_proof_builder.conjunction_commitment_scalars()[1])
+            .with(&close_state_proof_builder.conjunction_commitment_scalars()[1])
             // integrate context
             .with_bytes(context.as_bytes())
             .finish();
@@ -506,6 +510,9 @@ impl PayProof {
             .with(&self.old_pay_token_proof)
             .with(&self.customer_balance_proof)
             .with(&self.merchant_balance_proof)
+            // integrate the revealed commitment scalars for the public values
+            .with(&self.old_nonce_commitment_scalar)
+            .with(&self.close_tag_commitment_scalar)
             // integrate context
             .with_bytes(context.as_bytes())
             .finish();
